@@ -31,6 +31,7 @@ type ConcOpts struct {
 	Duel       bool // a third of the runs: the tiny "read near the deadline vs clock step + CleanUp" scenario (see sweepDuel)
 	AimAdvance bool // half of the clock advances are aimed at the configured lifetime (d, d-1, d/2+1, d+0..2, d/3+1)
 	WakeDuel   bool // a quarter of the runs: the tiny "non-writer asks for a drain while a writer publishes" scenario (see wakeDuel)
+	Admission  bool // C18: observe maintenance passes, estimate look-ups and evictions; judge every displacement (conc_admit.go)
 	TinyP      int  // one run in TinyP is a tiny program (2-3 tasks x 1-3 operations, 1-2 keys)
 	Ticker     bool // half of the runs: clock advances feed the clock's ticker, so otter's periodic clean-up goroutine runs CleanUp concurrently with the clients
 	NonTrivial func(o *ConcOutcome) bool
@@ -52,6 +53,7 @@ type ConcMode struct {
 	NoCleanup  bool `json:"no_cleanup,omitempty"`
 	SweepCheck bool `json:"sweep_check,omitempty"`
 	AsyncClock bool `json:"async_clock,omitempty"`
+	Admission  bool `json:"admission,omitempty"`
 	FarSweep   bool `json:"far_sweep,omitempty"` // sweep check: the final clock jump goes past every remaining deadline
 }
 
@@ -140,7 +142,7 @@ func runConc(seed uint64, cc *ConcCase, schedule []simrt.Deviation, replay bool,
 	cfg := cc.Cfg
 	if m := cc.Mode; m != nil {
 		o2 := *opts
-		o2.Lin, o2.Rounds, o2.NoCleanup, o2.SweepCheck, o2.AsyncClock = m.Lin, m.Rounds, m.NoCleanup, m.SweepCheck, m.AsyncClock
+		o2.Lin, o2.Rounds, o2.NoCleanup, o2.SweepCheck, o2.AsyncClock, o2.Admission = m.Lin, m.Rounds, m.NoCleanup, m.SweepCheck, m.AsyncClock, m.Admission
 		opts = &o2
 	}
 	cr := &concRun{cc: cc, opts: opts, probe: out.Probes, taskFinish: map[int]uint64{}}
@@ -215,6 +217,9 @@ func (cr *concRun) main() {
 	var r *Runner
 	w.NoPreempt(func() { r = NewRunner(w, cfg) })
 	cr.r = r
+	if cr.opts.Admission {
+		cr.watchAdmission()
+	}
 	mainCtx := &taskCtx{id: -1, opIdx: -1}
 	simrt.Cur().Tag = mainCtx
 	if cfg.Executor == "queued" {
